@@ -51,8 +51,8 @@ Definition check (c : case) : verdict :=
 Definition K n k s := {| k_id := n; k_kind := k; k_size := s |}.
 Definition RE k x g ch cok uok :=
   {| r_key := k; r_xkid := x; r_genkid := g; r_chain := ch; r_chain_ok := cok; r_usage_ok := uok |}.
-Definition CF kid name ttl cl cch :=
-  {| c_keyid := kid; c_name := name; c_ttl := ttl; c_claims := cl; c_cache := cch |}.
+Definition CF kid name ttl cl cch bef aft :=
+  {| c_keyid := kid; c_name := name; c_ttl := ttl; c_claims := cl; c_cache := cch; c_before := bef; c_after := aft |}.
 Definition JW kid alg key use certs :=
   {| j_kid := kid; j_alg := alg; j_key := key; j_use := use; j_certs := certs |}.
 Definition TK alg kid typ key cl :=
